@@ -328,7 +328,11 @@ def mon_C13(run):
     det = run.mode == "det" and run.script.get("second") is None
     H = b.iteration_history["fval"] if b.iteration_history.get("fval") is not None else []
     vs = [c["val"] for c in run.calls]
+    pmm = float(uo.get("poll_mesh_multiplier", 2.0))
     for pol in run.polls:
+        # a poll step works on the mesh size that belongs to its exponent (whatever changed the exponent since the last poll)
+        if pol["mesh"] != pmm ** pol["k0"]:
+            run.v("C13", "poll step runs on a mesh size that is not the power of its exponent", "poll-on-stale-mesh", (pol["mesh"], pol["k0"]))
         if pol.get("k1") is None or pol.get("c1") is None:
             continue
         k0, k1, it = pol["k0"], pol["k1"], pol["iter"]
